@@ -75,6 +75,36 @@ Lemma nil_match_true : forall (A : Type) (l : list A),
   (match l with [] => true | _ => false end) = true -> l = [].
 Proof. intros A [|a l] H; [reflexivity | discriminate]. Qed.
 
+Lemma strs_eqb_eq : forall a b, strs_eqb a b = true -> a = b.
+Proof.
+  induction a as [|x a IH]; intros [|y b] H; cbn in H; try discriminate; [reflexivity|].
+  apply andb_true_iff in H. destruct H as [Hx Hr]. apply String.eqb_eq in Hx. subst y.
+  f_equal. apply IH. exact Hr.
+Qed.
+
+(* Prop-level reading of sig_sat: a method with exactly the demanded signature is emitted *)
+Definition emits_sig (tbl : list tfunc) (e : env) (s : sigreq) : Prop :=
+  exists f, In f tbl /\ tf_emitted e f = true /\ tf_recv f <> RNone
+            /\ tf_name f = sg_name s /\ tf_params f = sg_params s /\ tf_results f = sg_results s.
+
+Lemma sig_sat_emits : forall tbl e s, sig_sat tbl e s = true -> emits_sig tbl e s.
+Proof.
+  intros tbl e s H. unfold sig_sat in H. apply existsb_exists in H. destruct H as [f [Hin H]].
+  apply andb_true_iff in H. destruct H as [H Hr].
+  apply andb_true_iff in H. destruct H as [H Hp].
+  apply andb_true_iff in H. destruct H as [H Hn].
+  apply andb_true_iff in H. destruct H as [He Hrc].
+  exists f. split; [exact Hin|]. split; [exact He|]. split.
+  - intros E. rewrite E in Hrc. discriminate.
+  - split; [apply String.eqb_eq; exact Hn|]. split; apply strs_eqb_eq; assumption.
+Qed.
+
+Lemma forallb_sig_sat : forall tbl e ss, forallb (sig_sat tbl e) ss = true ->
+  forall s, In s ss -> emits_sig tbl e s.
+Proof.
+  intros tbl e ss H s Hin. rewrite forallb_forall in H. apply sig_sat_emits. apply H. exact Hin.
+Qed.
+
 (* ---------------------------------------------------------------- enumerations are complete *)
 Lemma bools_complete : forall b, In b bools.
 Proof. intros []; cbn; auto. Qed.
@@ -97,30 +127,49 @@ Proof.
   apply H. apply all_genum_opts_complete.
 Qed.
 
+Lemma genum_ok_parts : forall T o, genum_ok T o = true ->
+  genum_missing T o = [] /\ nodupb (method_names (tt_genum T) (genum_env o)) = true
+  /\ forallb (sig_sat (tt_genum T) (genum_env o)) (genum_sigs T o) = true.
+Proof.
+  intros T o H. unfold genum_ok in H.
+  apply andb_true_iff in H. destruct H as [H Hs].
+  apply andb_true_iff in H. destruct H as [H _].
+  apply andb_true_iff in H. destruct H as [Hm Hn].
+  apply nil_match_true in Hm. auto.
+Qed.
+
 Lemma genum_ok_methods : forall T o, genum_ok T o = true ->
   forall r, In r (genum_required (tt_enum T) (tt_typed T) o) ->
             provides (emitted (tt_genum T) (genum_env o)) r.
 Proof.
-  intros T o H r Hin. unfold genum_ok in H. apply andb_true_iff in H. destruct H as [Hm _].
-  apply nil_match_true in Hm. apply sat_req_provides.
-  exact (missing_nil _ _ Hm r Hin).
+  intros T o H r Hin. destruct (genum_ok_parts T o H) as [Hm _].
+  apply sat_req_provides. exact (missing_nil _ _ Hm r Hin).
 Qed.
 
 Lemma genum_ok_nodup : forall T o, genum_ok T o = true ->
   NoDup (method_names (tt_genum T) (genum_env o)).
 Proof.
-  intros T o H. unfold genum_ok in H. apply andb_true_iff in H. destruct H as [_ Hn].
-  apply nodupb_NoDup. exact Hn.
+  intros T o H. destruct (genum_ok_parts T o H) as [_ [Hn _]]. apply nodupb_NoDup. exact Hn.
 Qed.
 
-Lemma genum_any_table : forall T, genum_sweep T = true ->
-  forall o, (forall r, In r (genum_required (tt_enum T) (tt_typed T) o) ->
-                       provides (emitted (tt_genum T) (genum_env o)) r)
-            /\ NoDup (method_names (tt_genum T) (genum_env o)).
+Lemma genum_ok_sigs : forall T o, genum_ok T o = true ->
+  forall s, In s (genum_sigs T o) -> emits_sig (tt_genum T) (genum_env o) s.
 Proof.
-  intros T H o. pose proof (genum_sweep_ok T H o) as Hok. split.
+  intros T o H. destruct (genum_ok_parts T o H) as [_ [_ Hs]]. apply forallb_sig_sat. exact Hs.
+Qed.
+
+Definition genum_statement (T : tmpl_tables) (o : genum_opts) : Prop :=
+  (forall r, In r (genum_required (tt_enum T) (tt_typed T) o) ->
+             provides (emitted (tt_genum T) (genum_env o)) r)
+  /\ NoDup (method_names (tt_genum T) (genum_env o))
+  /\ (forall s, In s (genum_sigs T o) -> emits_sig (tt_genum T) (genum_env o) s).
+
+Lemma genum_any_table : forall T, genum_sweep T = true -> forall o, genum_statement T o.
+Proof.
+  intros T H o. pose proof (genum_sweep_ok T H o) as Hok. split; [|split].
   - apply genum_ok_methods. exact Hok.
   - apply genum_ok_nodup. exact Hok.
+  - apply genum_ok_sigs. exact Hok.
 Qed.
 
 (* ---------------------------------------------------------------- gerror, any table *)
@@ -130,16 +179,19 @@ Definition gerror_statement (T : tmpl_tables) (skip : bool) : Prop :=
         In m (map fst (emitted (tt_gerror T) (gerror_env skip))) \/ In m (tt_promoted T))
   /\ NoDup (method_names (tt_gerror T) (gerror_env skip))
   /\ (skip = true -> forall m, In m convert_methods ->
-        ~ In m (may_emit (tt_gerror T) (gerror_env skip))).
+        ~ In m (may_emit (tt_gerror T) (gerror_env skip)))
+  /\ (forall s, In s (gerror_sigs T skip) -> emits_sig (tt_gerror T) (gerror_env skip) s).
 
 Lemma gerror_ok_statement : forall T skip, gerror_ok T skip = true -> gerror_statement T skip.
 Proof.
   intros T skip H. unfold gerror_ok in H.
   apply andb_true_iff in H. destruct H as [H Hskip].
   apply andb_true_iff in H. destruct H as [H Hnd].
-  apply andb_true_iff in H. destruct H as [Hm Himpl].
+  apply andb_true_iff in H. destruct H as [H Himpl].
+  apply andb_true_iff in H. destruct H as [H Hsig].
+  apply andb_true_iff in H. destruct H as [Hm _].
   apply nil_match_true in Hm.
-  repeat split.
+  split; [|split; [|split; [|split]]].
   - intros r Hin. apply sat_req_provides. exact (missing_nil _ _ Hm r Hin).
   - intros m Hin. unfold gerror_implements in Himpl. rewrite forallb_forall in Himpl.
     specialize (Himpl m Hin). apply orb_true_iff in Himpl.
@@ -148,6 +200,7 @@ Proof.
   - intros Hs m Hin. subst skip. rewrite forallb_forall in Hskip.
     specialize (Hskip m Hin). apply negb_true_iff in Hskip.
     apply mem_false_not_In. exact Hskip.
+  - apply forallb_sig_sat. exact Hsig.
 Qed.
 
 Lemma gerror_any_table : forall T, gerror_sweep T = true -> forall skip, gerror_statement T skip.
@@ -157,15 +210,22 @@ Proof.
 Qed.
 
 (* ---------------------------------------------------------------- gsort, any table *)
-Lemma gsort_any_table : forall T, gsort_sweep T = true ->
-  forall p, (forall r, In r sort_methods -> provides (emitted (tt_gsort T) (gsort_env p)) r)
-            /\ NoDup (method_names (tt_gsort T) (gsort_env p)).
+Definition gsort_statement (T : tmpl_tables) (p : bool) : Prop :=
+  (forall r, In r sort_methods -> provides (emitted (tt_gsort T) (gsort_env p)) r)
+  /\ NoDup (method_names (tt_gsort T) (gsort_env p))
+  /\ (forall s, In s (gsort_sigs T) -> emits_sig (tt_gsort T) (gsort_env p) s).
+
+Lemma gsort_any_table : forall T, gsort_sweep T = true -> forall p, gsort_statement T p.
 Proof.
   intros T H p. unfold gsort_sweep in H. rewrite forallb_forall in H.
   specialize (H p (bools_complete p)). unfold gsort_ok in H.
-  apply andb_true_iff in H. destruct H as [Hm Hn]. apply nil_match_true in Hm. split.
+  apply andb_true_iff in H. destruct H as [H Hs].
+  apply andb_true_iff in H. destruct H as [H _].
+  apply andb_true_iff in H. destruct H as [Hm Hn]. apply nil_match_true in Hm.
+  split; [|split].
   - intros r Hin. apply sat_req_provides. exact (missing_nil _ _ Hm r Hin).
   - apply nodupb_NoDup. exact Hn.
+  - apply forallb_sig_sat. exact Hs.
 Qed.
 
 (* ---------------------------------------------------------------- basic kinds, any table *)
@@ -187,10 +247,7 @@ Proof. vm_compute. reflexivity. Qed.
 Lemma hand_kinds_sweep : kinds_sweep hand_render hand_kinds = true.
 Proof. vm_compute. reflexivity. Qed.
 
-Lemma hand_genum : forall o,
-  (forall r, In r (genum_required iface_genum_Enum iface_genum_TypedEnum o) ->
-             provides (emitted genum_funcs (genum_env o)) r)
-  /\ NoDup (method_names genum_funcs (genum_env o)).
+Lemma hand_genum : forall o, genum_statement hand_tables o.
 Proof. exact (genum_any_table hand_tables hand_genum_sweep). Qed.
 
 Lemma hand_genum_methods : forall o r,
@@ -199,14 +256,16 @@ Lemma hand_genum_methods : forall o r,
 Proof. intros o. exact (proj1 (hand_genum o)). Qed.
 
 Lemma hand_genum_nodup : forall o, NoDup (method_names genum_funcs (genum_env o)).
-Proof. intros o. exact (proj2 (hand_genum o)). Qed.
+Proof. intros o. exact (proj1 (proj2 (hand_genum o))). Qed.
+
+Lemma hand_genum_sigs : forall o s, In s (genum_sigs hand_tables o) ->
+  emits_sig genum_funcs (genum_env o) s.
+Proof. intros o. exact (proj2 (proj2 (hand_genum o))). Qed.
 
 Lemma hand_gerror : forall skip, gerror_statement hand_tables skip.
 Proof. exact (gerror_any_table hand_tables hand_gerror_sweep). Qed.
 
-Lemma hand_gsort : forall p,
-  (forall r, In r sort_methods -> provides (emitted gsort_funcs (gsort_env p)) r)
-  /\ NoDup (method_names gsort_funcs (gsort_env p)).
+Lemma hand_gsort : forall p, gsort_statement hand_tables p.
 Proof. exact (gsort_any_table hand_tables hand_gsort_sweep). Qed.
 
 Lemma hand_kinds_ok : forall k, In k hand_kinds -> bk_const k = true ->
@@ -215,12 +274,8 @@ Proof. exact (kinds_any_table hand_render hand_kinds hand_kinds_sweep). Qed.
 
 Lemma any_tables : forall T,
   genum_sweep T = true -> gerror_sweep T = true -> gsort_sweep T = true ->
-  (forall o, (forall r, In r (genum_required (tt_enum T) (tt_typed T) o) ->
-                        provides (emitted (tt_genum T) (genum_env o)) r)
-             /\ NoDup (method_names (tt_genum T) (genum_env o)))
-  /\ (forall skip, gerror_statement T skip)
-  /\ (forall p, (forall r, In r sort_methods -> provides (emitted (tt_gsort T) (gsort_env p)) r)
-                /\ NoDup (method_names (tt_gsort T) (gsort_env p))).
+  (forall o, genum_statement T o) /\ (forall skip, gerror_statement T skip)
+  /\ (forall p, gsort_statement T p).
 Proof.
   intros T H1 H2 H3. split; [|split].
   - apply genum_any_table. exact H1.
@@ -264,7 +319,8 @@ Lemma predict_built_genum : forall T ks r c,
   /\ (go_disable_traits (genum_opts_of c) = false ->
       forall n, In n (gc_kinds c) -> exists k, find_kind ks n = Some k /\ kind_ok r k = true).
 Proof.
-  intros T ks r c Ht Hp. unfold predict in Hp. rewrite Ht in Hp.
+  intros T ks r c Ht Hp. unfold predict in Hp.
+  destruct (gc_fallback c); [discriminate|]. rewrite Ht in Hp.
   set (o := genum_opts_of c) in *.
   destruct (negb (go_disable_traits o) && has_any (gc_shapes c) err_shapes); [discriminate|].
   destruct (go_ci o && mem "ci_collision" (gc_shapes c)); [discriminate|].
@@ -445,4 +501,24 @@ Proof.
   intros own r ts l p H. apply (thread_covers own); [| | exact H]; apply Forall_all; intros x.
   - apply extract_ref_mono.
   - unfold covers_on. intros l0 p0. apply extract_ref_covers.
+Qed.
+
+(* ---------------------------------------------------------------- the formatting fallback *)
+From GT Require Import Base.Verdict GenBuildJudge.
+
+(* a run in which gencommon.Write took its formatting fallback is never judged clean: either the
+   observation is ObsBad (a failing input) or it differs from the model (which predicts ObsBad) *)
+Lemma fallback_flagged : forall T ks r c, gc_fallback c = true -> gb_judge T ks r c <> 0.
+Proof.
+  intros T ks r c Hf. unfold gb_judge, verdict, spec_ok, model_eq, predict. rewrite Hf.
+  destruct (gc_obs c); cbn; discriminate.
+Qed.
+
+(* ... and is a violation of the property exactly when the farm saw no error report and no
+   gofmt-clean building package *)
+Lemma fallback_violation : forall T ks r c, gc_fallback c = true ->
+  (gb_judge T ks r c = 1 <-> gc_obs c = ObsBad).
+Proof.
+  intros T ks r c Hf. unfold gb_judge, verdict, spec_ok, model_eq, predict. rewrite Hf.
+  destruct (gc_obs c); cbn; split; intros H; try discriminate; try reflexivity.
 Qed.
